@@ -89,7 +89,8 @@ func HarnessC18Write(op, oneShot, plenIdx int) {
 	}
 	sink.failAt = vrange(0, calls-1)
 	sink.oneShot = oneShot == 1
-	sink.accept = 0
+	// the failing call accepts nothing, one byte, or up to 100 bytes (a strict prefix of a packet-sized write)
+	sink.accept = vchoose(0, 1, 100)
 	var n int
 	var err error
 	switch op {
